@@ -46,12 +46,22 @@ Definition requests_of_step (s : step) : list detail :=
   | ExpectThat, Some ds => (ds ++ [("Failed expectation", 0)])%list
   | _, _ => []
   end.
-(* the statements that are executed: up to and including the first that raises *)
+(* the statements of one function that are executed: up to and including the first that raises *)
 Fixpoint exec (steps : list step) : list step :=
   match steps with
   | [] => []
   | s :: r => if raises_step s then [s] else s :: exec r
   end.
+(* what leaves the function: the exception of the first statement that raises (a MismatchError is an
+   AssertionError) *)
+Definition exc_of_step (s : step) : exck := match s_kind s with Raise e => e | _ => XFail end.
+Fixpoint exc_of (steps : list step) : option exck :=
+  match steps with
+  | [] => None
+  | s :: r => if raises_step s then Some (exc_of_step s) else exc_of r
+  end.
+Definition excs_of (cs : list (list step)) : list exck := flat_map (fun c => opt_list (exc_of c)) cs.
+Definition expfail (s : step) : bool := is_expect (s_kind s) && is_some (s_mis s).
 
 Lemma executed_exec steps : executed steps = exec steps.
 Proof.
@@ -59,13 +69,81 @@ Proof.
   destruct (raises_step s); simpl; [reflexivity|]. rewrite IH. reflexivity.
 Qed.
 
+Lemma executed_all_exec p : executed_all p = flat_map exec (phases p).
+Proof. unfold executed_all. apply flat_map_ext. intro a. apply executed_exec. Qed.
+
 Lemma exec_sub steps : sub (exec steps) steps.
 Proof.
   induction steps as [|s r IH]; simpl; [constructor|].
   destruct (raises_step s); [constructor; apply sub_nil_l|constructor; exact IH].
 Qed.
 
-(* ---------- the invariant through the body ---------- *)
+Lemma exec_concat_sub cs : sub (flat_map exec cs) (List.concat cs).
+Proof. induction cs as [|c r IH]; simpl; [constructor|]. apply sub_app; [apply exec_sub|exact IH]. Qed.
+
+Lemma phases_sub p : sub (flat_map exec (phases p)) (all_steps p).
+Proof.
+  unfold phases, all_steps. destruct (setup_raises p); simpl.
+  - apply sub_app; [apply exec_sub|]. apply (sub_app [] (p_body p)); [apply sub_nil_l|].
+    apply (sub_app [] (p_teardown p)); [apply sub_nil_l|]. apply exec_concat_sub.
+  - repeat (apply sub_app; [apply exec_sub|]). apply exec_concat_sub.
+Qed.
+
+(* ---------- which exception leaves a function ---------- *)
+Lemma exc_of_is_some steps : is_some (exc_of steps) = existsb raises_step steps.
+Proof.
+  induction steps as [|s r IH]; simpl; [reflexivity|]. destruct (raises_step s); simpl; [reflexivity|exact IH].
+Qed.
+
+Lemma exc_of_is_some_exec steps : is_some (exc_of steps) = existsb raises_step (exec steps).
+Proof.
+  induction steps as [|s r IH]; simpl; [reflexivity|]. destruct (raises_step s) eqn:R; simpl; rewrite R; simpl;
+    [reflexivity|exact IH].
+Qed.
+
+Lemma exc_of_fail steps : existsb (fun s => is_raise (s_kind s)) (exec steps) = false ->
+  forall x, exc_of steps = Some x -> x = XFail.
+Proof.
+  induction steps as [|s r IH]; simpl; intros H x E; [discriminate|].
+  destruct (raises_step s); simpl in H; apply orb_false_iff in H as [H1 H2].
+  - injection E as <-. unfold exc_of_step. destruct (s_kind s); try reflexivity. discriminate.
+  - apply IH; assumption.
+Qed.
+
+Lemma excs_of_nil cs : existsb raises_step (flat_map exec cs) = false -> excs_of cs = [].
+Proof.
+  induction cs as [|c r IH]; simpl; intro H; [reflexivity|].
+  rewrite existsb_app in H. apply orb_false_iff in H as [H1 H2]. rewrite (IH H2), app_nil_r.
+  rewrite <- exc_of_is_some_exec in H1. destruct (exc_of c); [discriminate|reflexivity].
+Qed.
+
+Lemma excs_of_nonempty cs : existsb raises_step (flat_map exec cs) = true -> excs_of cs <> [].
+Proof.
+  induction cs as [|c r IH]; simpl; intro H; [discriminate|].
+  rewrite existsb_app in H. rewrite <- exc_of_is_some_exec in H.
+  destruct (exc_of c); simpl in *; [discriminate|]. apply IH. exact H.
+Qed.
+
+Lemma excs_of_fail cs : existsb (fun s => is_raise (s_kind s)) (flat_map exec cs) = false ->
+  Forall (fun x => x = XFail) (excs_of cs).
+Proof.
+  induction cs as [|c r IH]; simpl; intro H; [constructor|].
+  rewrite existsb_app in H. apply orb_false_iff in H as [H1 H2]. apply Forall_app. split; [|apply IH; exact H2].
+  destruct (exc_of c) as [x|] eqn:E; simpl; [|constructor]. constructor; [|constructor].
+  apply (exc_of_fail c H1). exact E.
+Qed.
+
+(* the exception caught last decides *)
+Lemma final_outcome_snoc l x : final_outcome (l ++ [x]) = outcome_of x.
+Proof. unfold final_outcome. rewrite fold_left_app. reflexivity. Qed.
+
+Lemma final_outcome_all_fail l : l <> [] -> Forall (fun x => x = XFail) l -> final_outcome l = Failure.
+Proof.
+  intros NE F. destruct (exists_last NE) as [l' [x ->]]. rewrite final_outcome_snoc.
+  apply Forall_app in F as [_ F]. inversion F; subst. reflexivity.
+Qed.
+
+(* ---------- the invariant through one function ---------- *)
 Lemma fold_add_inv ds : forall reqs l, Inv reqs l ->
   exists tail, fold_left add_unique ds (Some l) = Some (l ++ tail)%list /\ Inv (reqs ++ ds)%list (l ++ tail)%list.
 Proof.
@@ -82,22 +160,22 @@ Definition mis_list (m : option (list detail)) : list detail := match m with Som
 
 Lemma run_body_spec steps : forall st reqs l,
   t_details st = Some l -> Inv reqs l ->
-  exists st2 raised tail,
-    run_body st steps = (st2, exp_raised steps, raised)
-    /\ raised || t_forced st2 = t_forced st || existsb (fun s => is_some (s_mis s)) (exec steps)
+  exists st2 tail,
+    run_body st steps = (st2, exp_raised steps, exc_of steps)
+    /\ t_forced st2 = t_forced st || existsb expfail (exec steps)
     /\ t_details st2 = Some (l ++ tail)%list
     /\ Inv (reqs ++ flat_map requests_of_step (exec steps))%list (l ++ tail)%list.
 Proof.
   induction steps as [|s r IH]; intros st reqs l D I; simpl.
-  - exists st, false, []. rewrite !app_nil_r, orb_false_r. auto.
-  - unfold raises_step, requests_of_step. destruct s as [k mis]. simpl.
+  - exists st, []. rewrite !app_nil_r, orb_false_r. auto.
+  - unfold raises_step, requests_of_step, expfail, exc_of_step. destruct s as [k mis]. simpl.
     destruct k; simpl.
     + (* assertThat *)
       destruct mis as [ds|]; simpl.
       * destruct (fold_add_inv ds reqs l I) as [tail [E I2]]. rewrite D, E.
-        eexists _, true, tail. rewrite app_nil_r. simpl. rewrite orb_true_r. auto.
-      * destruct (IH st reqs l D I) as [st2 [raised [tail [E [O [D2 I2]]]]]]. rewrite E.
-        exists st2, raised, tail. auto.
+        eexists _, tail. rewrite app_nil_r. simpl. rewrite orb_false_r. auto.
+      * destruct (IH st reqs l D I) as [st2 [tail [E [O [D2 I2]]]]]. rewrite E.
+        exists st2, tail. auto.
     + (* expectThat *)
       destruct mis as [ds|]; simpl.
       * destruct (fold_add_inv ds reqs l I) as [tail [E I2]]. rewrite D, E.
@@ -106,17 +184,103 @@ Proof.
         { unfold add_unique in E'. destruct (unique_name _ _); [|discriminate]. injection E' as <-. eauto. }
         rewrite E'.
         destruct (IH {| t_details := Some ((l ++ tail) ++ [x])%list; t_forced := true |} _ _ eq_refl I3)
-          as [st2 [raised [tail2 [E2 [O [D2 I4]]]]]].
-        rewrite E2. exists st2, raised, (tail ++ x :: tail2)%list. simpl in O.
-        rewrite O, orb_true_r. simpl.
+          as [st2 [tail2 [E2 [O [D2 I4]]]]].
+        rewrite E2. exists st2, (tail ++ x :: tail2)%list. simpl in O.
+        rewrite O, orb_true_r.
         rewrite <- !app_assoc in *. simpl in *. auto.
-      * destruct (IH st reqs l D I) as [st2 [raised [tail [E [O [D2 I2]]]]]]. rewrite E.
-        exists st2, raised, tail. auto.
+      * destruct (IH st reqs l D I) as [st2 [tail [E [O [D2 I2]]]]]. rewrite E.
+        exists st2, tail. auto.
     + (* assert_that *)
       destruct mis as [ds|]; simpl.
-      * exists st, true, []. rewrite !app_nil_r. simpl. rewrite orb_true_r. auto.
-      * destruct (IH st reqs l D I) as [st2 [raised [tail [E [O [D2 I2]]]]]]. rewrite E.
-        exists st2, raised, tail. auto.
+      * exists st, []. rewrite !app_nil_r. simpl. rewrite orb_false_r. auto.
+      * destruct (IH st reqs l D I) as [st2 [tail [E [O [D2 I2]]]]]. rewrite E.
+        exists st2, tail. auto.
+    + (* raise *)
+      exists st, []. rewrite !app_nil_r. simpl. rewrite orb_false_r. auto.
+Qed.
+
+(* ---------- ... through a sequence of functions that all run ---------- *)
+Lemma run_cleanups_spec cs : forall st reqs l,
+  t_details st = Some l -> Inv reqs l ->
+  exists st2 tail,
+    run_cleanups st cs = (st2, map exp_raised cs, excs_of cs)
+    /\ t_forced st2 = t_forced st || existsb expfail (flat_map exec cs)
+    /\ t_details st2 = Some (l ++ tail)%list
+    /\ Inv (reqs ++ flat_map requests_of_step (flat_map exec cs))%list (l ++ tail)%list.
+Proof.
+  induction cs as [|c r IH]; intros st reqs l D I; simpl.
+  - exists st, []. rewrite !app_nil_r, orb_false_r. auto.
+  - destruct (run_body_spec c st reqs l D I) as [st1 [tail1 [E1 [O1 [D1 I1]]]]]. rewrite E1.
+    destruct (IH st1 _ _ D1 I1) as [st2 [tail2 [E2 [O2 [D2 I2]]]]]. rewrite E2.
+    exists st2, (tail1 ++ tail2)%list. rewrite O2, O1, existsb_app, flat_map_app, orb_assoc.
+    rewrite <- !app_assoc in *. auto.
+Qed.
+
+(* ---------- the test as a whole: setUp, then either the cleanups only or everything ---------- *)
+Lemma run_body_shape steps : forall st, exists st2, run_body st steps = (st2, exp_raised steps, exc_of steps).
+Proof.
+  induction steps as [|s r IH]; intro st; simpl; [eauto|].
+  unfold raises_step, exc_of_step. destruct s as [k mis]. simpl.
+  destruct k, mis as [ds|]; simpl; eauto.
+  - destruct (IH st) as [st2 E]. rewrite E. eauto.
+  - match goal with |- context [run_body ?st' r] => destruct (IH st') as [st2 E] end. rewrite E. eauto.
+  - destruct (IH st) as [st2 E]. rewrite E. eauto.
+  - destruct (IH st) as [st2 E]. rewrite E. eauto.
+Qed.
+
+Lemma run_test_unfold p :
+  let '(st, ls, es) := run_cleanups {| t_details := Some (p_pre p); t_forced := false |} (phases p) in
+  run_test p = {| r_raised := ls; r_after_ran := true;
+                  r_outcome := final_outcome (es ++ (if setup_raises p then []
+                                                     else if t_forced st then [XFail] else []))%list;
+                  r_details := t_details st |}.
+Proof.
+  unfold run_test, phases, setup_raises. rewrite <- exc_of_is_some.
+  destruct (run_body_shape (p_setup p) {| t_details := Some (p_pre p); t_forced := false |}) as [st1 E0].
+  destruct (exc_of (p_setup p)) as [x|] eqn:X; simpl; rewrite E0, ?X.
+  - destruct (run_cleanups st1 (rev (p_cleanups p))) as [[st4 ls] es]. simpl. rewrite app_nil_r. reflexivity.
+  - destruct (run_body_shape (p_body p) st1) as [st2 E1]. rewrite E1.
+    destruct (run_body_shape (p_teardown p) st2) as [st3 E2]. rewrite E2.
+    destruct (run_cleanups st3 (rev (p_cleanups p))) as [[st4 ls] es]. simpl.
+    rewrite <- !app_assoc. reflexivity.
+Qed.
+
+(* what the model reports: the exception caught last, the forced failure being raised after everything else
+   unless setUp raised *)
+Definition model_outcome (p : prog) : outcome :=
+  final_outcome (excs_of (phases p) ++ (if setup_raises p then [] else if expect_failed p then [XFail] else []))%list.
+
+Lemma inv_start pre : NoDup (map fst pre) -> Inv pre pre.
+Proof.
+  intro NDpre. split; [|exact NDpre]. unfold answers. clear. induction pre; constructor; [|assumption].
+  split; [reflexivity|exists 0; reflexivity].
+Qed.
+
+Theorem run_test_spec (p : prog) : NoDup (map fst (p_pre p)) ->
+  exists tail,
+    run_test p = {| r_raised := map exp_raised (phases p); r_after_ran := true;
+                    r_outcome := model_outcome p;
+                    r_details := Some (p_pre p ++ tail)%list |}
+    /\ Inv (p_pre p ++ flat_map requests_of_step (flat_map exec (phases p)))%list (p_pre p ++ tail)%list.
+Proof.
+  intro NDpre. pose proof (run_test_unfold p) as U.
+  destruct (run_cleanups_spec (phases p) {| t_details := Some (p_pre p); t_forced := false |} _ _ eq_refl
+              (inv_start _ NDpre)) as [st2 [tail [E [O [D2 I2]]]]].
+  rewrite E in U. exists tail. split; [|exact I2]. rewrite U, D2. simpl in O.
+  rewrite O. unfold model_outcome, expect_failed. rewrite executed_all_exec. reflexivity.
+Qed.
+
+(* the outcome the model reports is one the statement allows, outside finding F21 *)
+Lemma model_outcome_ok p : setup_raises p && expect_failed p = false -> outcome_okb p (model_outcome p) = true.
+Proof.
+  intro NF. unfold outcome_okb, model_outcome. destruct (expect_failed p) eqn:EF.
+  - rewrite andb_true_r in NF. rewrite NF, final_outcome_snoc. reflexivity.
+  - assert (S : (if setup_raises p then [] else @nil exck) = []) by (destruct (setup_raises p); reflexivity).
+    rewrite S, app_nil_r. unfold any_raise, explicit_raise. rewrite executed_all_exec.
+    destruct (existsb raises_step (flat_map exec (phases p))) eqn:AR; simpl.
+    + destruct (existsb (fun s => is_raise (s_kind s)) (flat_map exec (phases p))) eqn:ER; simpl; [reflexivity|].
+      rewrite (final_outcome_all_fail _ (excs_of_nonempty _ AR) (excs_of_fail _ ER)). reflexivity.
+    + rewrite (excs_of_nil _ AR). reflexivity.
 Qed.
 
 (* ---------- payload ---------- *)
@@ -230,43 +394,38 @@ Proof.
 Qed.
 
 (* ---------- assertThat / expectThat / assert_that: the model meets the statement ---------- *)
-Theorem test_meets_spec pre steps : wf (ITest pre steps) -> spec_okb (ITest pre steps) (model (ITest pre steps)) = true.
+Lemma list_list_bool_refl (l : list (list bool)) : list_eqb (list_eqb Bool.eqb) l l = true.
+Proof. apply (list_eqb_spec _ (list_eqb_spec Bool.eqb bool_eqb_spec)). reflexivity. Qed.
+
+Theorem test_meets_spec p : wf (ITest p) -> finding_F21 (ITest p) = false ->
+  spec_okb (ITest p) (model (ITest p)) = true.
 Proof.
-  intros [ND [NZ NDpre]]. unfold model, run_test.
-  assert (I0 : Inv pre pre).
-  { split; [|exact NDpre]. unfold answers. clear. induction pre; constructor; [|assumption].
-    split; [reflexivity|exists 0; reflexivity]. }
-  destruct (run_body_spec steps {| t_details := Some pre; t_forced := false |} pre pre eq_refl I0)
-    as [st2 [raised [tail [E [O [D2 [A ND2]]]]]]].
-  rewrite E. simpl. rewrite D2. simpl in O.
+  intros [ND [NZ NDpre]] NF. unfold model.
+  destruct (run_test_spec p NDpre) as [tail [E [A ND2]]].
+  rewrite E. simpl.
   unfold test_okb. simpl.
-  rewrite (proj2 (list_eqb_spec Bool.eqb bool_eqb_spec _ _) eq_refl). simpl.
-  unfold any_mismatch. rewrite executed_exec, O.
-  assert (Hoc : outcome_eqb (if existsb (fun s => is_some (s_mis s)) (exec steps) then Failure else Success)
-                            (if existsb (fun s => is_some (s_mis s)) (exec steps) then Failure else Success) = true)
-    by (destruct (existsb _ _); reflexivity).
-  rewrite Hoc. simpl.
+  rewrite list_list_bool_refl, (model_outcome_ok p NF). simpl.
   (* the payload details answer the wanted ones *)
-  unfold all_details in ND, NZ.
+  set (pre := p_pre p) in *. set (ex := flat_map exec (phases p)) in *.
+  unfold all_details in ND, NZ. fold pre in ND, NZ.
   assert (NZpre : ~ In 0 (map snd pre)) by (intro X; apply NZ; rewrite map_app; apply in_or_app; auto).
-  assert (SubF : sub (flat_map (fun s => mis_list (s_mis s)) (exec steps))
-                     (flat_map (fun s => match s_mis s with Some ds => ds | None => [] end) steps)).
-  { apply (sub_flat_map (fun s => mis_list (s_mis s))). apply exec_sub. }
-  assert (NZex : ~ In 0 (map snd (flat_map (fun s => mis_list (s_mis s)) (exec steps)))).
+  assert (SubF : sub (flat_map (fun s => mis_list (s_mis s)) ex)
+                     (flat_map (fun s => match s_mis s with Some ds => ds | None => [] end) (all_steps p))).
+  { apply (sub_flat_map (fun s => mis_list (s_mis s))). apply phases_sub. }
+  assert (NZex : ~ In 0 (map snd (flat_map (fun s => mis_list (s_mis s)) ex))).
   { intro X. apply NZ. rewrite map_app. apply in_or_app. right.
     eapply sub_in; [apply sub_map; exact SubF|exact X]. }
-  assert (W : filter nz (pre ++ flat_map requests_of_step (exec steps)) = wanted pre steps).
-  { unfold wanted. rewrite executed_exec, filter_app, (filter_nz_all pre NZpre), filter_flat_requests; auto. }
+  assert (W : filter nz (pre ++ flat_map requests_of_step ex) = wanted p).
+  { unfold wanted. rewrite executed_all_exec, filter_app, (filter_nz_all pre NZpre), filter_flat_requests; auto. }
   pose proof (answers_filter _ _ A) as AF. rewrite W in AF. change (filter nz (pre ++ tail)) with (payload (pre ++ tail)) in AF.
   change (filter (fun d => negb (Nat.eqb (snd d) 0)) (pre ++ tail)) with (payload (pre ++ tail)).
-  set (od := payload (pre ++ tail)) in *. set (w := wanted pre steps) in *.
+  set (od := payload (pre ++ tail)) in *. set (w := wanted p) in *.
   assert (NDw : NoDup (map snd w)).
-  { subst w. unfold wanted. rewrite executed_exec.
+  { subst w. unfold wanted. rewrite executed_all_exec. fold pre ex.
     eapply sub_nodup; [|exact ND]. apply sub_map. apply sub_app; [apply sub_refl|].
     assert (forall l, sub (flat_map mis_details l) (flat_map (fun s => mis_list (s_mis s)) l)).
     { induction l as [|s l IHl]; simpl; [constructor|]. apply sub_app; [|exact IHl].
       unfold mis_details, mis_list. destruct (attaches (s_kind s)); [apply sub_refl|apply sub_nil_l]. }
-    (* flat_map mis_details (exec steps) is a subsequence of the details of all steps *)
     eapply sub_trans; [apply H|exact SubF]. }
   unfold details_okb. fold w.
   rewrite (answers_snd _ _ AF), same_tokens_refl. simpl.
@@ -301,44 +460,31 @@ Proof.
 Qed.
 
 (* ---------- the whole statement ---------- *)
-Theorem model_meets_spec i : wf i -> agree i = true -> spec_okb i (model i) = true.
+Theorem model_meets_spec i : wf i -> agree i = true -> finding_F21 i = false -> spec_okb i (model i) = true.
 Proof.
-  destruct i as [isb s ml np|name modelled hm|pre steps]; intros W A.
+  destruct i as [isb s ml np|name modelled hm|p]; intros W A NF.
   - apply repr_meets_spec; assumption.
   - simpl in W. subst modelled. simpl.
     apply (list_eqb_spec okind_eqb). 2: reflexivity.
     intros a b. destruct a, b; simpl; split; intro H; try discriminate; try reflexivity; try congruence.
     + apply Nat.eqb_eq in H. congruence.
     + injection H as ->. apply Nat.eqb_refl.
-  - apply test_meets_spec. exact W.
+  - apply test_meets_spec; assumption.
 Qed.
 
-(* ---------- what the model does, in one statement ---------- *)
-Theorem run_test_spec (pre : list detail) (steps : list step) : NoDup (map fst pre) ->
-  exists tail,
-    run_test pre steps = {| r_raised := exp_raised steps; r_after_ran := true;
-                            r_outcome := if any_mismatch steps then Failure else Success;
-                            r_details := Some (pre ++ tail)%list |}
-    /\ Inv (pre ++ flat_map requests_of_step (exec steps))%list (pre ++ tail)%list.
-Proof.
-  intro NDpre.
-  assert (I0 : Inv pre pre).
-  { split; [|exact NDpre]. unfold answers. clear. induction pre; constructor; [|assumption].
-    split; [reflexivity|exists 0; reflexivity]. }
-  destruct (run_body_spec steps {| t_details := Some pre; t_forced := false |} pre pre eq_refl I0)
-    as [st2 [raised [tail [E [O [D2 I2]]]]]].
-  exists tail. split; [|exact I2]. unfold run_test. rewrite E. simpl in O.
-  unfold any_mismatch. rewrite executed_exec, O, D2. reflexivity.
-Qed.
-
-(* statement k raises iff it is assertThat / assert_that and its matcher mismatches; expectThat never
-   raises; nothing is executed after a raise *)
+(* statement k of a function raises iff it is assertThat / assert_that and its matcher mismatches, or it is a
+   raise; expectThat never raises; nothing of the function is executed after a raise *)
 Lemma exp_raised_nth steps : forall k b, nth_error (exp_raised steps) k = Some b ->
-  exists s, nth_error steps k = Some s /\ b = is_assert (s_kind s) && is_some (s_mis s)
+  exists s, nth_error steps k = Some s
+            /\ b = match s_kind s with
+                   | AssertThat | AssertThatFn => is_some (s_mis s)
+                   | ExpectThat => false
+                   | Raise _ => true
+                   end
             /\ (b = true -> List.length (exp_raised steps) = S k).
 Proof.
   induction steps as [|s r IH]; intros k b H; simpl in H; [destruct k; discriminate|].
-  cbn [exp_raised]. unfold raises_step in *. destruct (is_assert (s_kind s) && is_some (s_mis s)) eqn:E.
+  cbn [exp_raised]. fold (raises_step s). destruct (raises_step s) eqn:E.
   - destruct k as [|k]; simpl in H; [|destruct k; discriminate]. injection H as <-.
     exists s. simpl. auto.
   - destruct k as [|k]; simpl in H.
@@ -347,11 +493,43 @@ Proof.
       repeat split; auto; try (intro Hb; rewrite (H3 Hb); reflexivity).
 Qed.
 
+(* expectThat never raises, wherever it stands *)
+Lemma expect_never_raises steps k s b :
+  nth_error steps k = Some s -> s_kind s = ExpectThat -> nth_error (exp_raised steps) k = Some b -> b = false.
+Proof.
+  intros Hs Hk Hb. destruct (exp_raised_nth steps k b Hb) as [s' [H1 [H2 _]]].
+  rewrite Hs in H1. injection H1 as <-. rewrite Hk in H2. exact H2.
+Qed.
+
 Lemma exp_raised_expect_only steps :
   existsb raises_step steps = false -> exp_raised steps = map (fun _ => false) steps /\ exec steps = steps.
 Proof.
   induction steps as [|s r IH]; simpl; intro H; [auto|].
   apply orb_false_iff in H as [H1 H2]. rewrite H1. destruct (IH H2) as [-> ->]. auto.
+Qed.
+
+(* a mismatching expectThat makes the test a failure whatever else the test does, provided setUp returns *)
+Theorem expect_forces_failure p : NoDup (map fst (p_pre p)) ->
+  setup_raises p = false -> expect_failed p = true ->
+  r_outcome (run_test p) = Failure /\ r_raised (run_test p) = map exp_raised (phases p).
+Proof.
+  intros ND SR EF. destruct (run_test_spec p ND) as [tail [E _]]. rewrite E. simpl. split; [|reflexivity].
+  unfold model_outcome. rewrite SR, EF. apply final_outcome_snoc.
+Qed.
+
+(* finding F21: the faithful model does not meet the statement when setUp raises after an expectThat mismatched *)
+Definition witness_F21 : prog :=
+  {| p_pre := []; p_setup := [{| s_kind := ExpectThat; s_mis := Some [("a", 1)] |}; {| s_kind := Raise XSkip; s_mis := None |}];
+     p_body := []; p_teardown := []; p_cleanups := [] |}.
+Theorem refuted_F21 :
+  exists i, wf i /\ agree i = true /\ finding_F21 i = true /\ spec_okb i (model i) = false
+            /\ model i = OTest [[false; true]] true Skip [("a", 1)].
+Proof.
+  exists (ITest witness_F21). split; [|repeat split; vm_compute; reflexivity].
+  simpl. unfold all_details. simpl. repeat split.
+  - repeat constructor. intros [].
+  - intros [H|[]]. discriminate.
+  - constructor.
 Qed.
 
 (* ---------- the executable statement implies the readable one ---------- *)
@@ -380,9 +558,18 @@ Qed.
 Lemma outcome_eqb_eq a b : outcome_eqb a b = true <-> a = b.
 Proof. destruct a, b; simpl; split; intro H; try discriminate; try reflexivity. Qed.
 
+Lemma outcome_okb_sound p oc : outcome_okb p oc = true -> OutcomeOk p oc.
+Proof.
+  unfold outcome_okb, OutcomeOk. intro H. destruct (expect_failed p).
+  - split; [|split; discriminate]. intros _. destruct oc; try discriminate; auto.
+  - split; [discriminate|]. destruct (any_raise p); simpl in H.
+    + split; [discriminate|]. intros _ _ ER. rewrite ER in H. simpl in H. apply outcome_eqb_eq. exact H.
+    + split; [|discriminate]. intros _ _. apply outcome_eqb_eq. exact H.
+Qed.
+
 Theorem spec_okb_sound i o : spec_okb i o = true -> Spec i o.
 Proof.
-  destruct i as [isb s ml np|name modelled hm|pre steps], o as [out eb|kinds|raised after oc od|];
+  destruct i as [isb s ml np|name modelled hm|p], o as [out eb|kinds|raised after oc od|];
     simpl; try discriminate.
   - unfold repr_okb. intro H. apply andb_true_iff in H as [-> H]. split; [reflexivity|].
     destruct (eval_lit out) as [[x l]|]; simpl in H; [|discriminate].
@@ -391,14 +578,15 @@ Proof.
   - intros H M. subst modelled. simpl in H. apply (list_eqb_spec okind_eqb okind_eqb_eq). exact H.
   - unfold test_okb, details_okb. intro H.
     repeat (apply andb_true_iff in H as [H ?]).
-    apply (list_eqb_spec Bool.eqb bool_eqb_spec) in H. apply outcome_eqb_eq in H1.
+    apply (list_eqb_spec _ (list_eqb_spec Bool.eqb bool_eqb_spec)) in H.
     apply andb_true_iff in H0 as [H0 H6]. apply andb_true_iff in H0 as [H0 H5].
     apply andb_true_iff in H0 as [H3 H4].
+    split; [exact H|]. split; [exact H2|]. split; [apply outcome_okb_sound; exact H1|].
     repeat split; auto.
     + apply same_tokens_sound. assumption.
     + apply nodup_str_iff. assumption.
     + intros n t Hin. pose proof (proj1 (forallb_forall _ _) H5 (n, t) Hin) as X. simpl in X.
-      destruct (base_of t (wanted pre steps)) as [base|]; [|discriminate].
+      destruct (base_of t (wanted p)) as [base|]; [|discriminate].
       exists base. split; [reflexivity|apply derived_sound; exact X].
     + intros d Hd. pose proof (proj1 (forallb_forall _ _) H6 d Hd) as X.
       apply existsb_exists in X as [d' [Hin E]]. apply detail_eqb_eq in E. subst. exact Hin.
@@ -421,10 +609,10 @@ Proof.
   - apply (list_eqb_spec okind_eqb okind_eqb_eq) in H. congruence.
   - injection H as ->. apply (list_eqb_spec okind_eqb okind_eqb_eq). reflexivity.
   - repeat (apply andb_true_iff in H as [H ?]).
-    apply (list_eqb_spec Bool.eqb bool_eqb_spec) in H. apply (proj1 (bool_eqb_spec _ _)) in H2.
+    apply (list_eqb_spec _ (list_eqb_spec Bool.eqb bool_eqb_spec)) in H. apply (proj1 (bool_eqb_spec _ _)) in H2.
     apply outcome_eqb_eq in H1. apply (list_eqb_spec Nat.eqb Nat.eqb_eq) in H0. congruence.
   - injection H as -> -> -> H. apply map_tok_inj in H. rewrite H.
-    rewrite (proj2 (list_eqb_spec Bool.eqb bool_eqb_spec _ _) eq_refl).
+    rewrite list_list_bool_refl.
     rewrite (proj2 (bool_eqb_spec _ _) eq_refl), (proj2 (outcome_eqb_eq _ _) eq_refl).
     rewrite (proj2 (list_eqb_spec Nat.eqb Nat.eqb_eq _ _) eq_refl). reflexivity.
 Qed.
